@@ -259,6 +259,9 @@ def decode(model, ids):
            "scan": {"missing": [[ln, dn(d)] for ln, d in model["scan"]["missing"]],
                     "unused": [[ln, dn(f), dn(a)] for ln, f, a in model["scan"]["unused"]]},
            "trace": [[ln, rev[n], r] for ln, n, r in model["trace"]]}
+    if "scandoc" in model:
+        out["scandoc"] = {"missing": [[ln, dn(d)] for ln, d in model["scandoc"]["missing"]],
+                          "unused": [[ln, dn(f), dn(a)] for ln, f, a in model["scandoc"]["unused"]]}
     return out
 
 
